@@ -15,7 +15,13 @@ impl Segment {
     }
     pub fn from_payload(src: u16, payload: &[u8]) -> Option<Segment> {
         let (h, data) = payload.split_first()?;
-        Some(Segment { src, fin: h & 0x80 != 0, fir: h & 0x40 != 0, seq: h & 0x3F, data: data.to_vec() })
+        Some(Segment {
+            src,
+            fin: h & 0x80 != 0,
+            fir: h & 0x40 != 0,
+            seq: h & 0x3F,
+            data: data.to_vec(),
+        })
     }
     pub fn payload(&self) -> Vec<u8> {
         let mut p = vec![self.header()];
@@ -27,11 +33,21 @@ impl Segment {
 /// split a fragment into segments of at most 249 data bytes; returns the next sequence number
 pub fn segment(src: u16, fragment: &[u8], start_seq: u8) -> (Vec<Segment>, u8) {
     let mut seq = start_seq & 0x3F;
-    let chunks: Vec<&[u8]> = if fragment.is_empty() { vec![] } else { fragment.chunks(249).collect() };
+    let chunks: Vec<&[u8]> = if fragment.is_empty() {
+        vec![]
+    } else {
+        fragment.chunks(249).collect()
+    };
     let n = chunks.len();
     let mut out = vec![];
     for (i, c) in chunks.into_iter().enumerate() {
-        out.push(Segment { src, fir: i == 0, fin: i + 1 == n, seq, data: c.to_vec() });
+        out.push(Segment {
+            src,
+            fir: i == 0,
+            fin: i + 1 == n,
+            seq,
+            data: c.to_vec(),
+        });
         seq = (seq + 1) & 0x3F;
     }
     (out, seq)
